@@ -103,6 +103,7 @@ type harness struct {
 	barrierC   *vsched.Chan[struct{}]
 	barrierN   int // barrier tasks in the scenario
 	arrived    int
+	restStatus *tasklane.LaneStatus // what Status() returned when asked at rest
 }
 
 type task struct {
@@ -259,6 +260,8 @@ func body(sp *spec) func(c *vsched.Ctx) {
 		for wi := 0; wi < sp.waiters; wi++ {
 			h.waiterT = append(h.waiterT, vsched.GoNamed(fmt.Sprintf("waiter%d", wi), func() { h.tl.Wait() }))
 		}
+		// the report "at rest" is asked for by a thread of its own once nothing else moves
+		c.AtRest(func() { h.restStatus = h.tl.Status() })
 		c.OnEnd(func() string { return h.atEnd(c) })
 		if inline {
 			runPushes(sp.producers[0])
@@ -342,7 +345,11 @@ func (h *harness) atEnd(c *vsched.Ctx) string {
 			rep("C07: a task pushed after cancellation was started", "C07")
 		}
 	}
-	st := h.tl.Status() // oracle context: raw, consistent snapshot
+	st := h.restStatus
+	if st == nil {
+		rep("C14: Status() called at rest did not return", "C14")
+		st = &tasklane.LaneStatus{}
+	}
 	// tasks handed to the lane (push returned nil, or the push is still in flight but the task already runs) and not entered
 	handed := 0
 	for i, t := range h.tasks {
